@@ -9,7 +9,7 @@ META = {
     "text": ("Lean theorem Hv.C14.holds_good: for every schedule of enqueue/acquire/cancel/unlock/ttl of any length, granted = {head} "
              "(mutual exclusion and no blocked waiter), grants in arrival order with nobody skipped unless cancelled while waiting, "
              "stale/foreign unlock is an error that changes nothing, head removal hands over to exactly the next caller, no ready channel "
-             "closed twice, gateway TTL always positive; closed counterexamples refutes_wakeLast / refutes_wakeNone / refutes_doubleClose / "
+             "closed twice, gateway TTL always positive; waiter_variant / granted_when_ahead_gone (liveness as a safety bound: a removal ahead of a waiter moves it exactly one place forward, nothing ever overtakes it, and once the n callers ahead have left it is the granted head; each holder leaves at the latest when its TTL watchdog fires — timers are trusted), waiter_id_is_a_capability (what the code would do with a waiter's id, and why the property does not quantify over it); closed counterexamples refutes_wakeLast / refutes_wakeNone / refutes_doubleClose / "
              "refutes_ttlFloor for mutated shapes; classify_sound ties the decision to 14 facts (incl. the id source: uuid vs per-queue counter; foreign_unlock_noop is proved over the multi-key map model for globally unique ids, refutes_ticketIds otherwise) extracted from lock.go and gateway.go; the "
              "model is run against the real lock under forced schedules (hooks lock.enq/rm/select/acq/cancel/ttl), including the "
              "cancel-vs-grant race of Lock's select and TTL expiry through a hook-stopped watchdog."),
